@@ -9,7 +9,7 @@
 // is), which is why the pattern brif -> switch -> seal used by capy may rely on the facts.
 
 #[derive(Clone, Copy)]
-pub struct BlockArg { pub _p: u8 }
+pub enum BlockArg { Value(Value) }
 #[derive(Clone, Copy)]
 pub struct TrapCode { pub _p: u8 }
 pub const TRAP_UNREACHABLE: TrapCode = TrapCode { _p: 1 };
@@ -75,6 +75,11 @@ impl FunctionBuilder {
 }
 
 impl Ins {
+    // "Jump. Unconditionally jump to a basic block, passing the specified block arguments."
+    #[verifier::external_body]
+    pub fn jump(self, b: Block, args: &[BlockArg])
+        ensures self.ev@ is Control
+    { unimplemented!() }
     // "Direct function call"
     #[verifier::external_body]
     pub fn call(self, f: FuncRef, args: &[Value]) -> (r: u32)
